@@ -10,10 +10,10 @@ import (
 // positions do not fit 32 bits and the forest has 32+ rows.  No history of
 // that length can be simulated, but a verifier state is only roots and a leaf
 // count: the node is created as Stump{NumLeaves: B, Roots: opaque} where B is
-// a multiple of 2^14 (bit length 31..62) and the opaque roots are arbitrary
+// a multiple of 2^20 (bit length 31..62) and the opaque roots are arbitrary
 // hashes, one per set bit of B.  The simulated forest (at most a few thousand
 // leaves, fully known to the reference model) then occupies the slots
-// B .. B+n-1.  Because n < 2^14 its trees never merge with the opaque ones, and
+// B .. B+n-1.  Because n < 2^20 its trees never merge with the opaque ones, and
 // the place (row, offset) of every node of the small forest is simply
 // (row, offset + B>>row) in the big one.  Every message to the node is
 // translated small -> big, everything the node returns is translated back, and
@@ -24,7 +24,7 @@ import (
 func bigOffset(r *Rng) uint64 {
 	bits := []uint{31, 32, 33, 34, 40, 47, 55, 62}[r.Intn(8)]
 	b := (r.Next() | 1<<63) >> (64 - bits) // exactly `bits` bits
-	b &^= 1<<14 - 1
+	b &^= 1<<20 - 1
 	if b == 0 {
 		b = 1 << (bits - 1)
 	}
@@ -65,7 +65,7 @@ func (n *Node) up(pos, nSmall uint64) uint64 {
 	}
 	B := n.cfg.Big
 	ro, ok := roOfPos(pos, rowsFor(nSmall))
-	if !ok || ro.R > 14 {
+	if !ok || ro.R > 20 {
 		return pos
 	}
 	return RO{ro.R, ro.O + B>>ro.R}.Pos(rowsFor(B + nSmall))
@@ -79,7 +79,7 @@ func (n *Node) down(pos, nSmall uint64) uint64 {
 	}
 	B := n.cfg.Big
 	ro, ok := roOfPos(pos, rowsFor(B+nSmall))
-	if !ok || ro.R > 14 || ro.O < B>>ro.R {
+	if !ok || ro.R > 20 || ro.O < B>>ro.R {
 		return ^uint64(0) - pos%4096
 	}
 	return RO{ro.R, ro.O - B>>ro.R}.Pos(rowsFor(nSmall))
